@@ -522,3 +522,41 @@ PROPS.update({
             "nontrivial": lambda c: True,
             "assumptions": SEARCH_ASSUME + ["hash-order sites that cannot be forced are covered by repetition (DESIGN 2.2)"]},
 })
+
+
+# ----------------------------------------------------------------------------- C18
+
+EXT_SAFE = {"intersect", "contains", "min", "max", "is_singleton", "singleton_value"}
+
+
+def plan_c18(ctx):
+    d = {"Emit": "TRUE", "Full": T(ctx, "FALSE", "TRUE")}
+    r = vlib.run_mc("C18_fdom", "MC_FDom", d, ["Laws", "EmitCase"], None, workers=12)
+    ctx["mc"].append(r)
+    n = 0
+    for c in r["cases"]:
+        base = {"kind": "domop", "op": c["op"], "a": c["a"], "arg": c["arg"]}
+        if c["b"] != ["none"]:
+            base["b"] = c["b"]
+        n += 1
+        add(ctx, [dict(base, id="C18-i%d" % n, emb="id")])
+        # extreme isize bounds: the monotone embedding whose end points are isize::MIN / MAX,
+        # for the operations that do not enumerate an interval element by element
+        doms = [c["a"]] + ([c["b"]] if c["b"] != ["none"] else [])
+        mixed = any(x[0] == "itv" for x in doms) and any(x[0] == "vec" for x in doms)
+        if c["op"] in EXT_SAFE and abs(c["arg"]) <= 3:   # thresholds -4 / 4 have no image of their own
+            add(ctx, [dict(base, id="C18-e%d" % n, emb="ext")])
+
+
+PROPS.update({
+    "C18": {"plan": plan_c18, "reasons": {"domain_op_wrong", "panic"},
+            "rule": "every domain of the family (all 28 intervals over -3..3, all 31 sorted subsets of -2..2, every vector "
+                    "of length <= 3 over {-1,0,1} before sorting) under every unary operation, every threshold operation "
+                    "with thresholds -4..4, and every binary operation with every (quick: light) second operand; the "
+                    "non-enumerating operations also under the embedding with isize::MIN / isize::MAX end points.  "
+                    "Non-trivial: every case (each is one distinct operation instance).",
+            "nontrivial": lambda c: True,
+            "assumptions": ["window -3..3; extreme bounds only through a monotone embedding and only for operations that do "
+                            "not iterate an interval (iterating isize::MIN..=isize::MAX is a performance matter, out of scope)",
+                            "TLC, Json/IOUtils, harness/src/domops.rs projection (Interval/Sparse -> window coordinates)"]},
+})
